@@ -2,15 +2,16 @@ import KoordVerif.Common.Proto
 import KoordVerif.Model.C10
 /-
 Driver for C10.  One op line per case (integer tokens):
-  budget <cap> <alloc> <anno> <thr> <hasMin> <min> <nodeUsed> <np> (<hasMeta> <qos> <kubeBE> <used>)* <na> (<qos> <base> <used>)*
+  budget <cap> <alloc> <annoKind> <annoResourcesCpu> <annoReservedCPUsCount> <thr> <hasMin> <min> <nodeUsed> <np> (<hasMeta> <qos> <kubeBE> <used>)* <na> (<qos> <base> <used>)*
       -> budget <milli>
   policy <k> <n> (<cpu> <core> <socket> <node>)*
       -> cpus <c>*                      (order of the returned slice)
-  cpuset <budgetMilli> <nOld> <old>* <n> (<cpu> <core> <socket> <node>)* <np> (<annoKind> <qos> <life> <m> <cpu>*)* <nr> <reserved>* <ns> <sysExclusive>* <topoNil> <kubeletPolicy>
+  cpuset <budgetMilli> <nOld> <old>* <n> (<cpu> <core> <socket> <node>)* <np> (<annoKind> <qos> <life> <m> <cpu>*)* <resKind> <nr> <reserved>* <sysKind> <ns> <systemQoSCpuset>* <topoNil> <kubeletPolicy>
       -> set <c>* / pod <c>* / cont <c>*  (BE root, pod-level and container-level cpuset afterwards, ascending)
          beset <c>* | beset err       (calcBECPUSet on the same inputs)            |  panic
   quota <budgetMilli> <cur> <capMilli>
       -> quota <q>                      (content of cpu.cfs_quota_us afterwards)
+  rinit / rbudget / round: one history of suppressBECPU rounds, see `stepLine`
 The float parameters are Lean runtime `Float` (IEEE binary64 as Go's float64).
 -/
 namespace KoordVerif.C10
@@ -59,11 +60,13 @@ def takePods : Nat → List Int → Option (List PodC × List Int)
 
 def sortDedup (xs : List Int) : List Int := (isortBy (fun a b => decide (a < b)) xs).eraseDups
 
-def runBudget (xs : List Int) : List String :=
+/-- the budget op's tokens -> calculateBESuppressCPU's value and capacity. -/
+def evalBudget (xs : List Int) : Option (Int × Int) :=
   match xs with
-  | cap :: alloc :: anno :: thr :: hasMin :: mn :: nodeUsed :: rest =>
+  | cap :: alloc :: annoKind :: annoRes :: annoCpus :: thr :: hasMin :: mn :: nodeUsed :: rest =>
+    let anno := annoReserved annoKind annoRes annoCpus
     match takeRecs 4 rest with
-    | none => ["bad-op"]
+    | none => none
     | some (prs, rest2) =>
       match takeRecs 3 rest2 with
       | some (ars, []) =>
@@ -73,10 +76,14 @@ def runBudget (xs : List Int) : List String :=
         let apps := ars.filterMap fun
           | [a, b, c] => some ({ qos := a, base := b, used := c } : AppU)
           | _ => none
-        let r := budget floatOps cap alloc anno thr (if hasMin ≠ 0 then some mn else none) nodeUsed pods apps
-        [s!"budget {r}"]
-      | _ => ["bad-op"]
-  | _ => ["bad-op"]
+        some (budget floatOps cap alloc anno thr (if hasMin ≠ 0 then some mn else none) nodeUsed pods apps, cap)
+      | _ => none
+  | _ => none
+
+def runBudget (xs : List Int) : List String :=
+  match evalBudget xs with
+  | some (r, _) => [s!"budget {r}"]
+  | none => ["bad-op"]
 
 def showList (tag : String) (xs : List Int) : String :=
   if xs.isEmpty then tag else tag ++ " " ++ showInts xs
@@ -89,6 +96,44 @@ def runPolicy (xs : List Int) : List String :=
     | _ => ["bad-op"]
   | _ => ["bad-op"]
 
+/-- `<kind> <n> <c>*` -/
+def takeKindList (xs : List Int) : Option (Int × List Int × List Int) :=
+  match xs with
+  | kind :: rest =>
+    match takeRecs 1 rest with
+    | none => none
+    | some (l, rest') => some (kind, l.flatten, rest')
+  | [] => none
+
+structure Env where
+  procs : List Proc
+  pods : List PodC
+  res : List Int
+  sys : List Int
+  topoNil : Bool
+  kp : Int
+
+/-- `<n> procs* <np> pods* <resKind> <nr> res* <sysKind> <ns> sys* <topoNil> <kubeletPolicy>` -/
+def takeEnv (rest1 : List Int) : Option Env :=
+  match takeRecs 4 rest1 with
+  | none => none
+  | some (prs, rest2) =>
+    match rest2 with
+    | np :: rest3 =>
+      if np < 0 then none else
+      match takePods np.toNat rest3 with
+      | none => none
+      | some (pods, rest4) =>
+        match takeKindList rest4 with
+        | none => none
+        | some (resKind, res, rest5) =>
+          match takeKindList rest5 with
+          | some (sysKind, sys, [topoNil, kp]) =>
+            some { procs := prs.filterMap toProc, pods := pods, res := effReserved resKind res, sys := effSysExcl sysKind sys,
+                   topoNil := topoNil ≠ 0, kp := kp }
+          | _ => none
+    | _ => none
+
 def runCpuset (xs : List Int) : List String :=
   match xs with
   | b :: nOld :: rest =>
@@ -96,30 +141,16 @@ def runCpuset (xs : List Int) : List String :=
     match takeN nOld.toNat rest with
     | none => ["bad-op"]
     | some (old, rest1) =>
-      match takeRecs 4 rest1 with
+      match takeEnv rest1 with
       | none => ["bad-op"]
-      | some (prs, rest2) =>
-        match rest2 with
-        | np :: rest3 =>
-          if np < 0 then ["bad-op"] else
-          match takePods np.toNat rest3 with
-          | none => ["bad-op"]
-          | some (pods, rest4) =>
-            match takeRecs 1 rest4 with
-            | none => ["bad-op"]
-            | some (res, rest5) =>
-              match takeRecs 1 rest5 with
-              | some (sys, [topoNil, kp]) =>
-                let oldSet := sortDedup old
-                let procs := prs.filterMap toProc
-                let lvl (w : Option (List Int)) : List Int := match w with | none => oldSet | some cs => sortDedup cs
-                let be := if topoNil ≠ 0 then "beset err"
-                  else showList "beset" (sortDedup (calcBESet procs pods res.flatten sys.flatten))
-                match adjustFull floatOps kp (topoNil ≠ 0) b oldSet.length procs pods res.flatten sys.flatten with
-                | none => ["panic"]
-                | some w => [showList "set" (lvl w.root), showList "pod" (lvl w.pod), showList "cont" (lvl w.cont), be]
-              | _ => ["bad-op"]
-        | _ => ["bad-op"]
+      | some e =>
+        let oldSet := sortDedup old
+        let lvl (w : Option (List Int)) : List Int := match w with | none => oldSet | some cs => sortDedup cs
+        let be := if e.topoNil then "beset err"
+          else showList "beset" (sortDedup (calcBESet e.procs e.pods e.res e.sys))
+        match adjustFull floatOps e.kp e.topoNil b oldSet.length e.procs e.pods e.res e.sys with
+        | none => ["panic"]
+        | some w => [showList "set" (lvl w.root), showList "pod" (lvl w.pod), showList "cont" (lvl w.cont), be]
   | _ => ["bad-op"]
 
 def runQuota (xs : List Int) : List String :=
@@ -143,7 +174,55 @@ def runLine (line : String) : List String :=
       else ["bad-op"]
   | _ => ["bad-op"]
 
-def runCase (lines : List String) : List String := lines.flatMap runLine
+/-! stateful part: `rinit <quota> <nOld> <old>*`, then per round `rbudget <budget tokens>` (no output) and
+    `round <sloKind> <quotaMode> <nodeNil> <nPodMetas> <nodeMetric> <infoMissing> <env tokens>`
+      -> set / pod / cont / quota lines  |  panic -/
+structure DSt where
+  st : RState := ⟨[], [], [], -1, false⟩
+  budget : Int := 0
+  cap : Int := 0
+  dead : Bool := false
+
+def showRState (st : RState) : List String :=
+  [showList "set" (sortDedup st.root), showList "pod" (sortDedup st.pod), showList "cont" (sortDedup st.cont), s!"quota {st.quota}"]
+
+def stepLine (d : DSt) (line : String) : DSt × List String :=
+  match toks line with
+  | kind :: rest =>
+    match ints? rest with
+    | none => (d, ["bad-op"])
+    | some xs =>
+      if kind == "rinit" then
+        match xs with
+        | q :: nOld :: old =>
+          if nOld.toNat ≠ old.length then (d, ["bad-op"]) else
+          let o := sortDedup old
+          ({ d with st := ⟨o, o, o, q, false⟩, dead := false }, [])
+        | _ => (d, ["bad-op"])
+      else if kind == "rbudget" then
+        match evalBudget xs with
+        | some (b, cap) => ({ d with budget := b, cap := cap }, [])
+        | none => (d, ["bad-op"])
+      else if kind == "round" then
+        if d.dead then (d, ["panic"]) else
+        match xs with
+        | slo :: qm :: nn :: npm :: nm :: im :: rest1 =>
+          match takeEnv rest1 with
+          | none => (d, ["bad-op"])
+          | some e =>
+            let i : RoundIn :=
+              { sloKind := slo, quotaMode := (qm ≠ 0), nodeNil := (nn ≠ 0), nPodMetas := npm.toNat,
+                nodeMetric := (nm ≠ 0), infoMissing := (im ≠ 0), budget := d.budget, capMilli := d.cap,
+                procs := e.procs, pods := e.pods, reserved := e.res, sysExcl := e.sys, topoNil := e.topoNil, kp := e.kp }
+            match roundStep floatOps d.st i with
+            | none => ({ d with dead := true }, ["panic"])
+            | some st' => ({ d with st := st' }, showRState st')
+        | _ => (d, ["bad-op"])
+      else (d, runLine line)
+  | _ => (d, ["bad-op"])
+
+def runCase (lines : List String) : List String :=
+  (lines.foldl (fun (acc : DSt × List String) l => let (d', o) := stepLine acc.1 l; (d', acc.2 ++ o)) ({}, [])).2
 
 end KoordVerif.C10
 
